@@ -13,6 +13,18 @@ int __real_BZ2_bzRead(int*, BZFILE*, void*, int);
 int __real_inflate(z_streamp, int);
 int __real_BZ2_bzDecompress(bz_stream*);
 
+int __real_compress2(Bytef*, uLongf*, const Bytef*, uLong, int);
+
+// "allocation failed inside the compressor": the tape-chosen call of compress2() reports Z_MEM_ERROR
+int __wrap_compress2(Bytef* dest, uLongf* dest_len, const Bytef* source, uLong source_len, int level) {
+    if (sim::active() && sim::compress_fail_at() == 0) {
+        sim::count_compress_call(true);
+        return Z_MEM_ERROR;
+    }
+    if (sim::active()) { sim::count_compress_call(false); }
+    return __real_compress2(dest, dest_len, source, source_len, level);
+}
+
 int __wrap_gzread(gzFile f, voidp buf, unsigned len) {
     const size_t c = sim::decomp_clamp();
     if (c && len > c) { len = static_cast<unsigned>(c); }
